@@ -48,8 +48,13 @@ def heat(dgm1, dgm2, sigma=0.4):
         heat kernel distance between dgm1 and dgm2
 
     """
+    # The squared distance can round to a tiny negative number when the diagrams
+    # (nearly) coincide; clamp it so that the square root stays real.
     return np.sqrt(
-        evalHeatKernel(dgm1, dgm1, sigma)
-        + evalHeatKernel(dgm2, dgm2, sigma)
-        - 2 * evalHeatKernel(dgm1, dgm2, sigma)
+        np.maximum(
+            evalHeatKernel(dgm1, dgm1, sigma)
+            + evalHeatKernel(dgm2, dgm2, sigma)
+            - 2 * evalHeatKernel(dgm1, dgm2, sigma),
+            0.0,
+        )
     )
